@@ -110,7 +110,9 @@ pub const GENS: [(&str, &str); 5] = [
 ];
 
 fn field_src(f: &Value, k: usize, named: bool, salt: usize) -> String {
-    let attr = if f["bad"] == true { "#[doc = \"plain\"] ".to_string() } else { format!("#[f(need = \"n{}\")] #[allow(dead_code)] ", k) };
+    // a failing member fails in one of three ways: the required item is absent (an unspanned error), its value is of the
+    // wrong kind (a spanned error one level deeper), or an unknown item stands in its place (a spanned error at the member)
+    let attr = if f["bad"] == true { ["#[doc = \"plain\"] ", "#[f(need = 5)] ", "#[f(nope)] #[f(need = \"x\")] "][(salt + k) % 3].to_string() } else { format!("#[f(need = \"n{}\")] #[allow(dead_code)] ", k) };
     let vis = VIS[(salt + k) % VIS.len()];
     let ty = TYS[(salt + 2 * k) % TYS.len()];
     if named { format!("{}{} {}: {}", attr, vis, f["name"].as_str().unwrap(), ty) } else { format!("{}{} {}", attr, vis, ty) }
@@ -130,7 +132,7 @@ pub fn render(body: &Value, salt: usize) -> String {
         },
         "enum" => {
             let vs: Vec<String> = ms.iter().enumerate().map(|(j, v)| {
-                let attr = if v["bad"] == true { "".to_string() } else { format!("#[f(need = \"v{}\")] ", j) };
+                let attr = if v["bad"] == true { ["", "#[f(need = 5)] ", "#[f(nope)] #[f(need = \"x\")] "][(salt + j) % 3].to_string() } else { format!("#[f(need = \"v{}\")] ", j) };
                 let fs = v["fs"].as_array().unwrap();
                 let disc = if v["disc"] == true { format!(" = {}", 3 + j) } else { String::new() };
                 let body = match v["style"].as_str().unwrap() {
